@@ -179,8 +179,11 @@ Section Refine.
 Context {K V D : Type}.
 Context (keq : forall a b : K, {a = b} + {a <> b}).
 Context (dflt : K -> V) (enc : K -> V -> D) (dec : K -> D -> V).
-Context (Req : V -> V -> Prop) {Req_equiv : Equivalence Req}.
-Context (codec : forall k v, Req (dec k (enc k v)) v).
+(* Req is a PARTIAL equivalence: "v and v' are valid objects denoting the same thing".  Reflexivity is only needed of
+   default objects and of the values a client puts; a reloaded object must denote what the saved one denoted. *)
+Context (Req : V -> V -> Prop) {Req_per : PER Req}.
+Context (R_dflt : forall k, Req (dflt k) (dflt k)).
+Context (R_codec : forall k v v', Req v v' -> Req (dec k (enc k v)) v').
 
 Notation cache := (cache (K:=K) (V:=V) (D:=D)).
 Notation op := (op (K:=K) (V:=V)).
@@ -201,7 +204,11 @@ Definition out_rel (x y : out) : Prop :=
 
 (* the functions applied to objects respect the equivalence *)
 Definition congr_op (o : op) : Prop :=
-  match o with OMutate _ f => forall a b, Req a b -> Req (f a) (f b) | _ => True end.
+  match o with
+  | OMutate _ f => forall a b, Req a b -> Req (f a) (f b)
+  | OPut _ v => Req v v
+  | _ => True
+  end.
 
 Definition uptodate (k : K) (v' : V) (c : cache) : Prop :=
   inflight k c \/ exists d, c_disk c k = Some d /\ Req (dec k d) v'.
@@ -291,11 +298,9 @@ Proof.
   intros c m o rest HI OK CG. destruct o as [k v|k|k f|k|num den order|acc| |wb].
   - (* Put *)
     cbn. split; [exact I|].
-    eapply inv_set; eauto.
-    + intros k0 N. apply tf_put_other; auto.
-    + apply s_set_same.
-    + intros; apply s_set_other; auto.
-    + reflexivity.
+    eapply inv_set with (o := OPut k v) (v' := v);
+      [exact HI | exact OK | intros k0 N; apply tf_put_other; auto | apply s_set_same
+      | intros; apply s_set_other; auto | exact CG].
   - (* Read *)
     cbn in OK. cbn [step]. unfold l_get. destruct (l_find keq k (c_lfu c)) as [e|] eqn:E.
     + destruct (inv_l HI _ _ (l_find_In _ _ _ E)) as (v' & A & B & _).
@@ -305,13 +310,12 @@ Proof.
     + pose proof (inv_n HI _ E) as Hn. cbn [spec_step]. destruct (m k) as [v'|] eqn:A.
       * destruct Hn as [U|(d & Hd & R)]; [exfalso; exact (OK U)|].
         rewrite Hd. cbn [fst snd]. split; [exact R|].
-        eapply inv_set; eauto. intros k0 N. apply tf_read_other; auto.
-      * rewrite Hn. cbn [fst snd]. split; [cbn; reflexivity|].
-        eapply inv_set; eauto.
-        -- intros k0 N. apply tf_read_other; auto.
-        -- apply s_set_same.
-        -- intros; apply s_set_other; auto.
-        -- reflexivity.
+        eapply inv_set with (o := ORead k) (v' := v');
+          [exact HI | exact OK | intros k0 N; apply tf_read_other; auto | exact A | intros; reflexivity | exact R].
+      * rewrite Hn. cbn [fst snd]. split; [cbn; apply R_dflt|].
+        eapply inv_set with (o := ORead k) (v' := dflt k);
+          [exact HI | exact OK | intros k0 N; apply tf_read_other; auto | apply s_set_same
+          | intros; apply s_set_other; auto | apply R_dflt].
   - (* Mutate *)
     cbn in OK. destruct OK as (Q & e & E & P). cbn in CG.
     destruct (inv_l HI _ _ (l_find_In _ _ _ E)) as (v' & A & B & _).
@@ -426,7 +430,7 @@ Proof.
     + intros k _. destruct (Cmp allq (c_disk c) k) as [C1 C2].
       destruct (in_dec keq k (map fst allq)) as [Hi|Hi].
       * destruct (C1 Hi) as (v & A & B). destruct (All _ _ A) as (v' & Hm & R). rewrite Hm.
-        right. exists (enc k v). split; [exact B|]. etransitivity; [apply codec | exact R].
+        right. exists (enc k v). split; [exact B|]. apply R_codec. exact R.
       * assert (NQ : ~ inflight k c).
         { unfold inflight. intros Hf. apply Hi. unfold allq. rewrite !map_app, !in_app_iff in *. tauto. }
         destruct (l_find keq k (c_lfu c)) as [e|] eqn:F.
@@ -454,7 +458,7 @@ Proof.
       { intros k v' A U. destruct (keq k k1) as [->|N].
         - right. rewrite ED. unfold save, d_set. cbn [fst snd]. destruct (keq k1 k1); [|congruence].
           exists (enc k1 v1). split; [reflexivity|]. rewrite A1 in A. inversion A; subst.
-          etransitivity; [apply codec | exact R1].
+          apply R_codec. exact R1.
         - destruct U as [U|U]; [left; apply Keep; auto|]. right. rewrite ED. unfold save, d_set. cbn [fst snd].
           destruct (keq k k1); [congruence | exact U]. }
       constructor.
@@ -793,18 +797,23 @@ Context (codec : forall k v, dec k (enc k v) = v).
 Notation run := (run keq dflt enc dec).
 Notation spec_run := (spec_run keq dflt).
 
+Lemma eq_codec : forall k v v', v = v' -> dec k (enc k v) = v'.
+Proof. intros; subst; apply codec. Qed.
+
 Lemma congr_eq : forall ops : list (op (K:=K) (V:=V)), Forall (congr_op eq) ops.
 Proof. intros. apply Forall_forall. intros o _. destruct o; cbn; auto. intros; congruence. Qed.
 
 Lemma Forall2_eq : forall (xs ys : list V), Forall2 eq xs ys -> xs = ys.
 Proof. induction 1; congruence. Qed.
 
+Ltac inst_eq := try typeclasses eauto; try (intros; reflexivity); try (exact eq_codec); try assumption; try apply congr_eq.
+
 Lemma c05_refines : forall ops,
   no_writeback ops -> admissible0 keq dflt enc dec c_empty ops ->
   rets (fst (run c_empty ops)) = rets (fst (spec_run s_empty ops)).
 Proof.
   intros ops NW AD. apply Forall2_eq. apply (rets_rel (Req:=eq)).
-  apply (refines_nowb keq dflt enc dec (Req:=eq) codec NW AD (congr_eq ops)).
+  eapply refines_nowb with (Req := eq); inst_eq.
 Qed.
 
 Lemma c05_refines_sync : forall cops,
@@ -812,17 +821,16 @@ Lemma c05_refines_sync : forall cops,
   rets (fst (run c_empty (lower cops))) = rets (fst (spec_run s_empty (lower cops))).
 Proof.
   intros cops S. apply Forall2_eq. apply (rets_rel (Req:=eq)).
-  apply (refines_sync keq dflt enc dec (Req:=eq) codec cops S (congr_eq _)).
+  eapply refines_sync with (Req := eq); inst_eq.
 Qed.
 
 Lemma c05_writeback_partial : forall ops,
   admissible keq dflt enc dec c_empty ops ->
   rets (fst (run c_empty ops)) = rets (fst (spec_run s_empty ops)).
 Proof.
-  intros ops AD.
-  pose proof (@refines_general K V D keq dflt enc dec eq _ codec ops c_empty s_empty
-                (inv_init keq dflt dec eq ops) AD (congr_eq ops)) as [H _].
-  apply Forall2_eq. apply (rets_rel (Req:=eq)). exact H.
+  intros ops AD. apply Forall2_eq. apply (rets_rel (Req:=eq)).
+  eapply proj1. eapply refines_general with (Req := eq); inst_eq.
+  apply inv_init.
 Qed.
 
 Lemma c05_flush_durable : forall ops,
@@ -834,7 +842,7 @@ Lemma c05_flush_durable : forall ops,
             | Some v => exists d, c_disk c' k = Some d /\ dec k d = v
             | None => c_disk c' k = None
             end.
-Proof. intros ops AD. exact (@flush_durable K V D keq dflt enc dec eq _ codec ops AD (congr_eq ops)). Qed.
+Proof. intros ops AD. eapply flush_durable with (Req := eq); inst_eq. Qed.
 
 Lemma c05_delete_removes : forall (c : cache (K:=K) (V:=V) (D:=D)) k,
   let c' := fst (step keq dflt enc dec c (ODelete k)) in
